@@ -1069,8 +1069,13 @@ func (r *Raft) sendAppendEntriesToPeers() {
 	// Only the linearizable read-only operations that are already pending when this
 	// round of requests is started may be verified by the responses to it.
 	round := &verificationRound{
-		numResponses: 1,
-		operations:   r.operationManager.pendingLinearizableOperations(),
+		operations: r.operationManager.pendingLinearizableOperations(),
+	}
+
+	// This node counts towards the quorum only if it is a voting member itself. A leader that
+	// has removed itself from the configuration keeps leading until the removal is committed.
+	if r.isVoter(r.id) {
+		round.numResponses = 1
 	}
 	for id, address := range r.configuration.Members {
 		if id != r.id {
